@@ -550,9 +550,28 @@ func propStop(c StopCase) (o pbt.Outcome) {
 		}
 		return sig
 	}
+	// a timing verdict is only issued if the machine is not slower now than
+	// when the bound was taken: the probe is repeated and the event awaited for
+	// the difference
+	extra := func(ch <-chan struct{}) bool {
+		b2 := scaledBound()
+		if b2 <= bound {
+			return false
+		}
+		select {
+		case <-ch:
+			bound = b2 // the stretched bound holds for what follows
+			return true
+		case <-time.After(b2 - bound):
+			return false
+		}
+	}
 	select {
 	case <-actionDone:
 	case <-time.After(bound):
+		if extra(actionDone) {
+			break
+		}
 		sig := fmt.Sprintf("slow/%s", []string{"session-close", "session-close", "client-stop", "server-stop", "both-stop"}[c.Action])
 		if c.Pending && c.Fault == 2 && !c.UDP {
 			sig += "/tcp-write-stalled"
@@ -599,6 +618,9 @@ func propStop(c StopCase) (o pbt.Outcome) {
 		select {
 		case <-w.done:
 		case <-time.After(time.Until(issued.Add(bound))):
+			if extra(w.done) {
+				continue
+			}
 			sig := "blocked/" + strings.Fields(w.name)[0]
 			if tcpStop(sig) != sig {
 				select {
@@ -620,6 +642,9 @@ func propStop(c StopCase) (o pbt.Outcome) {
 	select {
 	case <-stopDone:
 	case <-time.After(bound):
+		if extra(stopDone) {
+			break
+		}
 		sigFinal := "slow/final-stop"
 		if explainable, budget := explain(); explainable {
 			select {
@@ -648,7 +673,13 @@ func propStop(c StopCase) (o pbt.Outcome) {
 			break
 		}
 		if time.Now().After(deadline) {
-			o.Failf("leak", "%d goroutine(s) of the stopped endpoints are still running 5 s after Stop, e.g.:\n%s", after-before, sample)
+			sig := "leak"
+			if c.UDP && c.AcceptBacklog > 0 && (strings.Contains(sample, "(*Session).runInputLoop") || strings.Contains(sample, "(*Session).runOutputLoop")) {
+				// open finding F-C15-9: session loops on a UDP endpoint whose
+				// application had stopped accepting survive the shutdown
+				sig = "leak/udp-accept-backlog/session-loops"
+			}
+			o.Failf(sig, "%d goroutine(s) of the stopped endpoints are still running 5 s after Stop, e.g.:\n%s", after-before, sample)
 			return
 		}
 		time.Sleep(20 * time.Millisecond)
